@@ -1,3 +1,5 @@
+//go:build c34 || all
+
 package main
 
 import (
